@@ -185,7 +185,9 @@ func (d Dialer) Dial(ctx context.Context, urlstr string) (conn net.Conn, br *buf
 	} else {
 		// Context could be canceled or its deadline could be exceeded.
 		// Start the interrupter goroutine to handle context cancelation.
-		done := setupContextDeadliner(ctx, conn)
+		// Note that we watch dialctx here: it is ctx bounded by d.Timeout, so
+		// the timeout limits the handshake I/O as well, not only the dial.
+		done := setupContextDeadliner(dialctx, conn)
 		defer func() {
 			// Map Upgrade() error to a possible context expiration error. That
 			// is, even if Upgrade() err is nil, context could be already
